@@ -821,7 +821,7 @@ func (t *Term) write(sb *strings.Builder, names map[int]string) {
 		return
 	case "constarr":
 		fmt.Fprintf(sb, "((as const %s) ", t.Sort.S)
-		t.Args[0].write(sb, names)
+		t.Args[0].write(sb, nil)
 		sb.WriteString(")")
 		return
 	case "extract":
